@@ -55,12 +55,14 @@ BINDINGS = [
     ("sort", {"kinds": "select", "oor_den": "0"}, {}, "Trace_Sort", "Spec", plans.FIX, lambda o: o["ev"] == "select" and len(o["a"]) >= 3 and len(set(o["a"])) >= 3,
      [("returned element replaced by another", lambda o: set_path(o, ["ret"], lambda v: v % max(o["a"]) + 1), "BAD"),
       ("one element of the array after the call duplicated", lambda o: set_path(o, ["after", 0], lambda v: o["after"][-1] if o["after"][-1] != v else v + 1), "BAD"),
+      ("the other handle of a shared array reported as changed", lambda o: set_path(o, ["other_ok"], lambda v: False), "BAD"),
       ("last pivot event of the hook dropped", lambda o: set_path(o, ["pv"], lambda v: v[:-1]), "DRIFT")]),
     ("sort", {"kinds": "partition", "oor_den": "0"}, {}, "Trace_Sort", "Spec", plans.FIX, lambda o: o["ev"] == "partition" and len(set(o["a"])) >= 3,
      [("returned partition index off by one", lambda o: set_path(o, ["k"], lambda v: v + 1), "BAD")]),
     ("nan", {"kinds": "remove_nan"}, {}, "Trace_Nan", "Spec", plans.FIX3, lambda o: o["ev"] == "remove_nan" and o["vout"]["len"] >= 2 and abs(o["vin"]["stride"]) >= 2,
      [("stride of the returned view replaced by 1", lambda o: set_path(o, ["vout", "stride"], lambda v: 1), "BAD"),
-      ("length of the returned view decremented", lambda o: set_path(o, ["vout", "len"], lambda v: v - 1), "BAD")]),
+      ("length of the returned view decremented", lambda o: set_path(o, ["vout", "len"], lambda v: v - 1), "BAD"),
+      ("a missing cell handed out as a typed reference", lambda o: set_path(o, ["tnn"], lambda v: [(-99 if (x == 0 and k == [i for i, y in enumerate(v) if y == 0][0]) else x) for k, x in enumerate(v)] if 0 in v else v[:-1]), "BAD")]),
     ("quant", {}, {}, "Trace_Quant", "Spec", {}, lambda o: o["ev"] == "quantile" and o["out"] == "ok" and o["strat"] in ("lower", "higher") and len(o["res"]) >= 1 and not o["wide"],
      [("first result element incremented", lambda o: set_path(o, ["res", 0], lambda v: v + 1), "BAD"),
       ("result of the repeated call differs", lambda o: set_path(o, ["res2", 0], lambda v: v + 1), "BAD"),
